@@ -5,7 +5,7 @@ ENGINES = [
      "kind_free_text": "controlled cooperative scheduler + AST instrumenter for lib/go; stateless DFS over choice sequences with deviation bounding and happens-before state-key pruning; explores the real code, no model"},
 ]
 
-ENGINES.append({"name": "e3-bytex", "path": "/verif/harness/e1/vb_bytex.go", "serves_properties": ["C05"],
+ENGINES.append({"name": "e3-bytex", "path": "/verif/harness/e1/vb_bytex.go", "serves_properties": ["C04", "C05"],
      "kind_free_text": "bounded-exhaustive byte strings, template-field substitutions and truncations at every synchronous receiving entry point; each input runs inside its own vsched execution so blocking forever is a detected end state"})
 
 NOTES = ("Every check rebuilds from /repo's working tree (override: VERIF_REPO) into a mktemp scratch dir that is removed on exit. "
@@ -45,5 +45,9 @@ CHECKS["C07"] = dict(engine="e1-vsched", design_ref="DESIGN.md §4 C07", techniq
 CHECKS["C05"] = dict(engine="e3-bytex", design_ref="DESIGN.md §3, §4 C05", technique="bounded-exhaustive input enumeration (all byte strings up to L over a boundary alphabet, all single field substitutions and truncations of template frames) at every receiving entry point, each inside a controlled-scheduler execution",
     text="All byte strings up to length 5 (7 thorough) over {00,01,04,05,7f,80,fe,ff}, raw / framed / behind a matching header size, JSON-alphabet strings behind valid headers, and for 15 well-formed template frames (request, reply, exception, unknown method, oneway x binary/compact/JSON) every truncation, every 4-byte field position x boundary value (pairs in thorough) and boundary byte flips; each fed to 22 entry points (registry.Execute, ExecuteFrame, NATS transport handler incl. status messages, getHeadersFromFrame, FProtocol header readers, FBaseProcessor.Process, fNatsServer.processFrame, HTTP handler func, HTTP client response path, processReply, FSimpleServer.accept, TFramedTransport.Read) under recover and inside a vsched execution; then a well-formed message must still be handled by the same receiver.",
     note="Trusted base: harness entry-point drivers, vsched, Apache Thrift as linked. Asynchronous loops (adapter read loop, subscriber loops) are driven by the C15/C07 harnesses; generated recv callbacks by the E2 checks. Declared header sizes of 1 MiB..2 GiB are skipped per entry point (counted) and represented by probes.")
+
+CHECKS["C04"] = dict(engine="e3-bytex", design_ref="DESIGN.md §4 C04", technique="bounded-exhaustive enumeration of header maps against an independent reference codec, cross-checked with the Python runtime's codec",
+    text="Every header map with 0-3 entries (4 in thorough) over 8 boundary strings (empty, 1 byte, reserved name, 2- and 3-byte UTF-8, NUL, 255 and 256 bytes) plus op-id maps, non-UTF-8 bytes and 70000-byte strings, each with 4 payloads (empty, 1 byte, header-lookalike, 1 KiB): bytes from writeHeader / WriteRequestHeader / WriteResponseHeader are checked against the documented v0 layout by a reference parser written from documentation/protocol.md; readHeader (stream), getHeadersFromFrame, addHeadersToFrame and ReadRequestHeader must return the identical map, leave the payload untouched and the transport at its first byte, on the code's own bytes and on reference encodings; the same cases go through lib/python/frugal/util/headers.py in both directions.",
+    note="Trusted base: the reference codec in harness/e1/vf_ref.go and lib/pyhdr.py; a 12-line stub stands in for the missing Python thrift package (only TProtocolException is needed).")
 
 NOT_APPLICABLE = {}
